@@ -3,8 +3,21 @@ harness family replays their CASE lines.  One function per property; quick and
 thorough tiers differ only in constants / families."""
 
 
+# every model switch at its "code as it is" value; a plan or the selftest overrides what it needs
+MODULE_DEFAULTS = {
+    "MC_Eval": {"DEV_MissingDynAnchorFails": "FALSE", "MUT_Eval": '"none"'},
+    "MC_Codec": {"DEV_OmitEmptyAssertingLists": "FALSE", "DEV_CaseFoldKeys": "FALSE", "MUT_Codec": '"none"'},
+    "MC_Defaults": {"DEV_EmptyContainerDefault": "FALSE", "MUT_Defaults": '"none"'},
+    "MC_Clone": {"MUT_SkipField": '"none"', "MUT_Clone": '"none"'},
+    "MC_Infer": {"CheckKnown": "FALSE", "LegacyNull": "FALSE", "MUT_Infer": '"none"'},
+    "MC_Resolve": {"DEV_CacheHitNoInfoMerge": "FALSE", "MUT_CacheAfterRefs": "FALSE", "MUT_Resolver": '"none"'},
+    "MC_Reps": {"DEV_EqualKindStrict": "FALSE", "DEV_NumberEqualsString": "FALSE", "DEV_JsonNumberIsString": "FALSE", "MUT_ScanLastOnly": "FALSE"},
+    "MC_Pointer": {"DEV_AtoiIndex": "FALSE", "MUT_UnescapeOrder": "FALSE"},
+}
+
+
 def tlc(name, module, consts=None, invariants=(), properties=(), workers=4, timeout=900, **kw):
-    c = {"DEV_MissingDynAnchorFails": "FALSE"} if module in ("MC_Eval",) else {}
+    c = dict(MODULE_DEFAULTS.get(module, {}))
     c.update(consts or {})
     d = dict(name=name, module=module, consts=c, invariants=list(invariants), properties=list(properties),
              workers=workers, timeout=timeout, spec_formula="Spec")
@@ -208,7 +221,7 @@ def plan_C19(tier, seed):
 
 
 def plan_C05(tier, seed):
-    j = cod_job("c05", "RT", 1 if tier == "quick" else 2, ["RoundTripKeepsMeaning"], workers=8)
+    j = cod_job("c05", "RT", 1 if tier == "quick" else 2, ["RoundTripKeepsMeaning", "KeepsKeywords"], workers=8)
     rd = cod_job("c05", "RD", 1, [], workers=2)
     return dict(
         tlc=[j, rd], parallel=2,
@@ -274,7 +287,7 @@ def plan_C14(tier, seed):
                ["Deterministic", "Pure", "Emit"], workers=4)
     ev = eval_jobs("c14", [("F3", 2), ("F5", 1), ("U1", 1), ("DUP", 1), ("W", 1), ("FK", 1)], "2020") + eval_jobs("c14", [("G2", 2), ("G5", 1)], "d7")
     rs = res_jobs("c14", [("R2", 1)])
-    lit = [cod_job("c14", "PO", 2, ["OrderRefines"]), cod_job("c14", "RT", 1, ["RoundTripKeepsMeaning"])]
+    lit = [cod_job("c14", "PO", 2, ["OrderRefines"]), cod_job("c14", "RT", 1, ["RoundTripKeepsMeaning", "KeepsKeywords"])]
     return dict(
         tlc=[life] + ev + rs + lit, parallel=4,
         replay=[dict(name="c14_history", family="history", inputs=[life["name"]]),
